@@ -13,6 +13,7 @@ import (
 	"github.com/alibaba/sentinel-golang/core/base"
 	"github.com/alibaba/sentinel-golang/core/flow"
 	"github.com/alibaba/sentinel-golang/core/stat"
+	"github.com/alibaba/sentinel-golang/util"
 	"github.com/alibaba/sentinel-golang/util/verifhook"
 	"verifharness/internal/sched"
 	"verifharness/internal/vh"
@@ -23,7 +24,23 @@ type decl struct {
 	batch uint32
 }
 
+// hookClock is the virtual clock plus one hook: the first Sleep after `onsleep <op>` performs <op> (a reload) while the
+// request that asked for the sleep is still inside flow.Slot.Check — deterministically, on the same goroutine.
+type hookClock struct {
+	*vh.Clock
+	onSleep func()
+}
+
+func (c *hookClock) Sleep(d time.Duration) {
+	c.Clock.Sleep(d)
+	if f := c.onSleep; f != nil {
+		c.onSleep = nil
+		f()
+	}
+}
+
 type Interp struct {
+	hc     *hookClock
 	clk    *vh.Clock
 	n      int
 	res    string
@@ -33,7 +50,10 @@ type Interp struct {
 
 func New() vh.Interp {
 	vh.Silence()
-	return &Interp{clk: vh.NewClock(1_900_000_000_000)}
+	c := vh.NewClock(1_900_000_000_000)
+	hc := &hookClock{Clock: c}
+	util.SetClock(hc)
+	return &Interp{clk: c, hc: hc}
 }
 
 func (it *Interp) Reset() {
@@ -44,6 +64,7 @@ func (it *Interp) Reset() {
 	it.loaded = false
 	it.decls = nil
 	it.clk.Sleeps = nil
+	it.hc.onSleep = nil
 }
 
 // one request through the public API; returns "block" or "pass" (the wait is read from the clock's Sleeps)
@@ -68,6 +89,10 @@ func sum(ds []time.Duration) (s time.Duration) {
 
 func (it *Interp) Step(t []string, op string) string {
 	switch t[0] {
+	case "onsleep":
+		op := append([]string(nil), t[1:]...)
+		it.hc.onSleep = func() { it.Step(op, strings.Join(op, " ")) }
+		return ""
 	case "load", "loadres":
 		// load (<f:threshold> <statIntervalMs> <maxQueueingTimeMs>)* [other=<n>]: the complete rule list of the resource, in
 		// check order; `other=<n>` adds a rule (threshold n) for another resource, so that a list that is otherwise
@@ -79,10 +104,21 @@ func (it *Interp) Step(t []string, op string) string {
 				ControlBehavior: flow.Reject, Threshold: float64(vh.U(args[n-1][6:]))})
 			args = args[:n-1]
 		}
-		if len(args)%3 != 0 {
-			panic("bad load")
-		}
 		for i := 0; i < len(args); i += 3 {
+			if args[i] == "rj" || strings.HasPrefix(args[i], "rj:") {
+				// a Reject rule of the same resource that is never reached: only its place in the controller list matters
+				n := 0.0
+				if len(args[i]) > 3 {
+					n = float64(vh.U(args[i][3:]))
+				}
+				rules = append(rules, &flow.Rule{Resource: it.res, TokenCalculateStrategy: flow.Direct,
+					ControlBehavior: flow.Reject, Threshold: 1e18 + n*1000})
+				i -= 2
+				continue
+			}
+			if i+2 >= len(args) {
+				panic("bad load")
+			}
 			th, ok := vh.ParseFBits(args[i])
 			if !ok {
 				panic("bad threshold " + args[i])
